@@ -39,7 +39,7 @@ type Case struct {
 	// Twice: the same form object is evaluated a second time (a call inside a
 	// loop body): destructive functions then meet the literal they changed,
 	// and the evaluator meets the arguments it rewrote on the first pass.
-	Twice bool   `json:"twice,omitempty"`
+	Twice bool `json:"twice,omitempty"`
 	// In: the package that is current while the call is evaluated ("" = the
 	// user package): bare = a fresh package that uses nothing, cl = a fresh
 	// package that uses common-lisp only, or the name of a built-in package.
@@ -55,7 +55,7 @@ type Case struct {
 	// After: chain cases only (see chain.go): the call that is evaluated (inside
 	// ignore-errors) on the same object before the call under observation.
 	After []string `json:"after,omitempty"`
-	Text  string `json:"text,omitempty"` // src: a program text that is read and evaluated
+	Text  string   `json:"text,omitempty"` // src: a program text that is read and evaluated
 }
 
 const (
@@ -106,6 +106,16 @@ func getLayout(tier string) []block {
 	}}
 	fn2q := block{name: "fn2-quickpool", n: nT * Q * Q, gen: func(_ *rand.Rand, k int) Case {
 		return mkFn(&targets[k/(Q*Q)], quickPool[(k/Q)%Q], quickPool[k%Q])
+	}}
+	var numT []int
+	for i := range targets {
+		if targets[i].numeric {
+			numT = append(numT, i)
+		}
+	}
+	NP := len(numPool)
+	fn2num := block{name: "fn2-numeric-pairs", n: len(numT) * NP * NP, gen: func(_ *rand.Rand, k int) Case {
+		return mkFn(&targets[numT[k/(NP*NP)]], numPool[(k/NP)%NP], numPool[k%NP])
 	}}
 	t3 := targets3()
 	fn3 := block{name: "fn3-smallpool", n: len(t3) * S * S * S, gen: func(_ *rand.Rand, k int) Case {
@@ -225,14 +235,14 @@ func getLayout(tier string) []block {
 	var l []block
 	switch tier {
 	case "thorough":
-		l = []block{fn0, fn1, fn1twice, fn1in, fn0amb, fn1amb, sampled(fn2amb, 200000), send01, send2, send3, send1amb, chain, fn2, fn3, fnkw, kwBad, fnN(200000),
+		l = []block{fn0, fn1, fn1twice, fn1in, fn0amb, fn1amb, sampled(fn2amb, 200000), send01, send2, send3, send1amb, chain, fn2, fn2num, fn3, fnkw, kwBad, fnN(200000),
 			srcDet, fmtDet, fmtDest, fmtSeed(200000), rdDet, rdAmb, rdSeed(200000)}
 	case "seeded": // development aid: the seeded blocks of the thorough tier only
 		l = []block{fnN(200000), fmtSeed(200000), rdSeed(200000)}
 	default:
 		l = []block{fn0, fn1, sampled(fn1twice, 15000), sampled(fn1in, 20000), fn0amb, fn1ambDet, sampled(fn1amb, 15000), sampled(fn2amb, 10000),
 			send01, send2q, send1amb, sampled(send2, 5000), sampled(send3, 5000), chainStride, sampled(chain, 5000),
-			fn2q, sampled(fn2, 30000), sampled(fn3, 15000), sampled(fnkw, 10000), sampled(kwBad, 10000), fnN(15000),
+			fn2q, fn2num, sampled(fn2, 30000), sampled(fn3, 15000), sampled(fnkw, 10000), sampled(kwBad, 10000), fnN(15000),
 			srcDet, fmtDet, fmtDest, fmtSeed(5000), rdDet, rdAmb, rdSeed(10000)}
 	}
 	layouts[tier] = l
